@@ -843,23 +843,12 @@ func (w *wk) doOp(o *opRec, cfg []entry, l *proc) {
 				*o = mergeAck(*o, first)
 				return
 			}
-			// then either remove the dead entry explicitly or wait for the reaper
-			if w.r.IntN(2) == 0 {
-				w.touch(x.id, "", "remove "+x.id)
-				if err := w.remove(x.id); err != nil {
-					o.Note += "; remove: " + err.Error()
-				}
-			} else {
-				deadline := time.Now().Add(reapNonVoter + 8*time.Second)
-				for time.Now().Before(deadline) {
-					if c2, _, ok := w.leaderCfg(2 * time.Second); ok && find(c2, x.id) == nil {
-						break
-					}
-					time.Sleep(50 * time.Millisecond)
-				}
-				// the watch has been resolved by the poller (or not); it must not be
-				// cancelled by the retry below
-				time.Sleep(100 * time.Millisecond)
+			// The new node now answers on the old entry's address, so the leader's
+			// heartbeats to the old entry succeed and the reaper never fires: the
+			// dead entry has to be removed explicitly before the join can work.
+			w.touch(x.id, "", "remove "+x.id)
+			if err := w.remove(x.id); err != nil {
+				o.Note += "; remove: " + err.Error()
 			}
 		}
 		w.join(o, p, voter, 4)
@@ -934,11 +923,19 @@ func (w *wk) doOp(o *opRec, cfg []entry, l *proc) {
 		w.mu.Lock()
 		x.polled = false
 		w.mu.Unlock()
-		wt := w.addWatch(x, *e, "cut")
-		w.mu.Lock()
-		x.cut = true
-		w.mu.Unlock()
-		w.net.Isolate(x.id, names)
+		byClose := w.r.IntN(3) == 0
+		var wt *watch
+		if byClose {
+			// the process dies; nothing listens on its address any more
+			wt = w.addWatch(x, *e, "closed")
+			w.stopProc(x)
+		} else {
+			wt = w.addWatch(x, *e, "cut")
+			w.mu.Lock()
+			x.cut = true
+			w.mu.Unlock()
+			w.net.Isolate(x.id, names)
+		}
 		deadline := time.Now().Add(wt.timeout + 10*time.Second)
 		for time.Now().Before(deadline) && !w.watchDone(wt) {
 			time.Sleep(20 * time.Millisecond)
@@ -948,7 +945,9 @@ func (w *wk) doOp(o *opRec, cfg []entry, l *proc) {
 			w.touch(x.id, "", "gave up waiting")
 		}
 		// the node is gone for good (still cut when closed)
-		w.stopProc(x)
+		if !byClose {
+			w.stopProc(x)
+		}
 		w.net.HealAll()
 		w.mu.Lock()
 		x.cut = false
